@@ -74,6 +74,23 @@ def run(case: dict, ctx) -> dict:
     # document malformed - an entity-declaring one must be refused all the same, whichever way the parse error is handled
     pidx = (case["lead"] * 3 + case["r"] + len(cls) + len(ep)) % 7
     pre = ["", "", "", "\n", "  \r\n\t", " ", "\ufeff"][pidx] if declares_entity or pidx in (0, 1, 2, 6) else ""
+    # the descriptor classes take "a file-like object": a text stream, or a binary one (BytesIO, a file opened "rb"), whose
+    # bytes may start with a UTF-8 byte order mark
+    hkind = ["text", "text", "bytes", "bytes-bom", "file-rb-bom"][(case["lead"] + case["r"] * 3 + len(cls)) % 5] if ep != "hdd" else "text"
+    if hkind != "text":
+        pre = ""
+    res["sets"]["handle_kinds"] = [f"{ep}:{hkind}"]
+
+    def _handle(text_):
+        if hkind == "text":
+            return io.StringIO(text_)
+        raw_ = (b"\xef\xbb\xbf" if hkind.endswith("bom") else b"") + text_.encode("utf-8")
+        if hkind.startswith("bytes"):
+            return io.BytesIO(raw_)
+        p_ = d / "descriptor-on-disk.xml"
+        p_.write_bytes(raw_)
+        return open(p_, "rb")
+
     if ep == "ovf":
         from dissect.hypervisor.descriptor.ovf import OVF
 
@@ -83,7 +100,7 @@ def run(case: dict, ctx) -> dict:
             # also put the reference where disks() would return it
             text = text.replace('href="', 'href="' + ref, 1) if rng.random() < 0.5 else text
         text = pre + text
-        o = call(lambda: sorted(OVF(io.StringIO(text)).disks()))
+        o = call(lambda: sorted(OVF(_handle(text)).disks()))
     elif ep == "vbox":
         from dissect.hypervisor.descriptor.vbox import VBox
 
@@ -91,7 +108,7 @@ def run(case: dict, ctx) -> dict:
         if ref:
             text = text.replace('location="', 'location="' + ref, 1) if 'location="' in text else text.replace("<Hardware", "<Description>" + ref + "</Description><Hardware", 1)
         text = pre + text
-        o = call(lambda: sorted(VBox(io.StringIO(text)).disks()))
+        o = call(lambda: sorted(VBox(_handle(text)).disks()))
         want = None
     elif ep == "pvs":
         from dissect.hypervisor.descriptor.pvs import PVS
@@ -100,7 +117,7 @@ def run(case: dict, ctx) -> dict:
         if ref:
             text = text.replace("<SystemName>", "<SystemName>" + ref, 1) if "<SystemName>" in text else text.replace("<VmName>", "<VmName>" + ref, 1)
         text = pre + text
-        o = call(lambda: sorted(PVS(io.StringIO(text)).disks()))
+        o = call(lambda: sorted(PVS(_handle(text)).disks()))
     else:
         from dissect.hypervisor.disk.hdd import HDD
 
